@@ -306,7 +306,7 @@ def main(run):
     verdicts = {}
     from ..tlc import extract_tuples
 
-    for v in extract_tuples(res2.out, "V"):
+    for v in extract_tuples(res2.out, 'V"'):
         verdicts[v[1]] = (v[2], v[3])
     nontriv = 0
     for t, m in zip(traces, meta):
